@@ -99,12 +99,19 @@ BlankOv(CT, c) == [q \in PropNames(CT, c) \cup {"_"} |-> FALSE]        \* ghost:
 
 \* Cls(**kw): unknown keyword -> TypeError; every attribute, in declaration order, is assigned its keyword value or else its
 \* default (defaults go through the preparer and the type check like any assignment)
+\* init_overflow_attr: keywords outside the attributes are accepted and collected, in call order, into that Dict[str, Any] attribute
+\* (naming the overflow attribute itself among the keywords is left open)
+OverflowOf(CT, c) == IF "overflow" \in DOMAIN CT[c] THEN CT[c].overflow ELSE ""
+ExtraKw(CT, c, kw) == SelectSeq(kw, LAMBDA e : e.k \notin AttrSet(CT, c))
 Construct(CT, c, kw) ==
-  IF ~(KwNames(kw) \subseteq AttrSet(CT, c)) THEN Err(PMissing, {"TypeError"})
+  IF OverflowOf(CT, c) = "" /\ ~(KwNames(kw) \subseteq AttrSet(CT, c)) THEN Err(PMissing, {"TypeError"})
+  ELSE IF OverflowOf(CT, c) # "" /\ (OverflowOf(CT, c) \in KwNames(kw) \/ \E j \in 1..Len(kw) : IsSentinel(kw[j].v)) THEN Err(PMissing, {"unspecified"})
   ELSE IF KeyOf(CT, c) # "" /\ KeyOf(CT, c) \notin KwNames(kw) /\ IsMissing(DefaultOf(CT, c, KeyOf(CT, c))) THEN Err(PMissing, {"TypeError"})
   ELSE LET blank == [t |-> "obj", c |-> c, a |-> [n \in AttrSet(CT, c) |-> PMissing], x |-> BlankX(CT, c), ov |-> BlankOv(CT, c)]
            all == [j \in 1..Len(Attrs(CT, c)) |-> [k |-> Attrs(CT, c)[j],
-                                                   v |-> IF Attrs(CT, c)[j] \in KwNames(kw) /\ ~IsMissing(KwGet(kw, Attrs(CT, c)[j]))
+                                                   v |-> IF Attrs(CT, c)[j] = OverflowOf(CT, c)
+                                                         THEN [t |-> "dict", e |-> [m \in 1..Len(ExtraKw(CT, c, kw)) |-> [k |-> PStr(ExtraKw(CT, c, kw)[m].k), v |-> ExtraKw(CT, c, kw)[m].v]]]
+                                                         ELSE IF Attrs(CT, c)[j] \in KwNames(kw) /\ ~IsMissing(KwGet(kw, Attrs(CT, c)[j]))
                                                          THEN KwGet(kw, Attrs(CT, c)[j]) ELSE DefaultOf(CT, c, Attrs(CT, c)[j])]]
        IN SetMany(CT, blank, all, 1)
 
